@@ -23,6 +23,7 @@ probes! {
     ev_split2 => "ev_fired.split2",
     ev_split3 => "ev_fired.split3",
     ev_order => "ev_fired.reorder_replica",
+    ev_matdot => "ev_fired.matrix_quire_dot",
     ev_poison => "ev_fired.nar_poison",
     ev_cancel_prev => "ev_fired.cancel_previous_term",
     cfg_poison => "ev_enabled_runs.nar_poison",
@@ -76,6 +77,9 @@ probes! {
     restart_poisoned => "probe.restart_of_poisoned_quire",
     inject_nar_limb => "probe.inject_top_limb_is_nar_limb",
     inject_near_range_end => "probe.inject_near_range_end",
+    matdot_elems => "probe.matrix_elements_checked",
+    matdot_nar => "probe.matrix_element_nar",
+    matdot_inner4 => "probe.matrix_inner_dimension_4+",
     // ---- C12 probes
     neg_multi_limb => "probe.neg_of_state_with_2+_nonzero_limbs",
     neg_low_zero => "probe.neg_of_state_with_zero_low_limbs",
